@@ -397,6 +397,9 @@ pub enum SourceSpec {
     Buffer,
     /// in-memory Read+Seek with a read-size schedule
     Stream(ReadSched),
+    /// the same, handed to flute at a non-zero position (permille of its length; 1000 = at its end):
+    /// the application sniffed a header, measured the length by seeking to the end, or reuses the stream
+    StreamAt(ReadSched, u32),
     /// real temp file (cache_in_ram = false)
     File,
     /// real temp file read into RAM by flute (cache_in_ram = true)
@@ -532,6 +535,11 @@ impl ObjectSpec {
                 self.md5,
                 cfg,
             ),
+            SourceSpec::StreamAt(sched, permille) => {
+                let mut s = SimStream::new(data, sched.clone());
+                s.pos = (s.data.len() as u64 * (*permille).min(1000) as u64 + 999) / 1000;
+                ObjectDesc::create_from_stream(Box::new(s), &self.ctype, &url, self.md5, cfg)
+            }
             SourceSpec::File | SourceSpec::FileInRam => {
                 let path = scratch.join(format!("src-{}.bin", idx));
                 std::fs::write(&path, &data).map_err(|e| format!("write temp {:?}", e))?;
